@@ -40,8 +40,8 @@ prepare = gcx.prepare
 NODEK = ("node", "nodea", "nodeb", "nodeo", "nodem")      # instrumented holders with 4 pointer fields (48 bytes, arena, 1 MiB, 52 bytes, fields in a side block reported by a Mark instance)
 LEAFK = ("nodez",)                               # instrumented object of size 0: can only be pointed at
 SEQ = ("arr", "lst", "tup")
-MAPI = ("tab", "tre", "thr", "tre4")             # keyed by a small integer (thr: thread-local entries of a Thread object;
-                                                 # tre4: Tree with 4-byte struct keys, so its values sit at addresses 4 mod 8)
+MAPI = ("tab", "tre", "thr", "tre4", "tab4")             # keyed by a small integer (thr: thread-local entries of a Thread object;
+                                                 # tre4 / tab4: Tree / Table with 4-byte struct keys: Tree values sit at addresses 4 mod 8, Table pads the key)
 MAPR = ("tabr", "trer")                          # keys are references too
 CONT = SEQ + MAPI + MAPR
 IDLIM = 200000                                   # handles of bulk objects (churn, chains, fill) stay below the ledger size
@@ -417,7 +417,7 @@ def _case(draw):
                 big[0] += cnt
                 ops.append(["check"])
         elif o == "bulk" and R:
-            conts = [x for x in R if S.kind[x] in ("arr", "lst", "tab", "tre", "tre4")]
+            conts = [x for x in R if S.kind[x] in ("arr", "lst", "tab", "tre", "tre4", "tab4")]
             live = [x for x in R if x not in boxed]
             if conts and live:
                 s = draw(st.sampled_from(conts))
